@@ -290,7 +290,9 @@ def machine(acc: Acc, tier, shard, nshards):
         run_state_machine_as_test(
             seed(env.shard_seed(ID + "/machine", shard))(M),
             settings=settings(max_examples=runs, stateful_step_count=cfg["machine_steps"], deadline=None, database=None,
-                              report_multiple_bugs=False, suppress_health_check=list(HealthCheck), phases=(Phase.generate, Phase.shrink)),
+                              report_multiple_bugs=False, suppress_health_check=list(HealthCheck),
+                              # every step builds fresh worker objects (~0.3 s): shrinking a history is only affordable in the thorough tier
+                              phases=(Phase.generate, Phase.shrink) if tier == "thorough" else (Phase.generate,)),
         )
     except AssertionError:
         pass
